@@ -36,6 +36,9 @@ pub enum Case {
     Curve { interp: u8, order: u8, calkind: u8, conv: u8, modi: u8, index_base: bool, switches: Vec<u8> },
     Fx { id: u32 },
     Spline { id: u32 },
+    /// large objects: numbers with `size` names, curves with `size` nodes, splines with `size` coefficients,
+    /// FX markets of min(size, 14) currencies
+    LargeStruct { size: usize },
 }
 
 const CONVS: [Convention; 11] = [
@@ -692,6 +695,60 @@ pub fn check(case: &Case, idx: u64, acc: &mut Acc) {
                 rep.acc.skip();
             }
         }
+        Case::LargeStruct { size } => {
+            let n = *size;
+            rep.acc.nontrivial();
+            let names: Vec<String> = (0..n).map(|i| format!("v{}", (i * 7 + 3) % n.max(1) + if (i * 7 + 3) % n.max(1) < i { 1000 } else { 0 })).collect();
+            let g: Vec<f64> = (0..n).map(|i| 1.0 / (3.0 + i as f64)).collect();
+            let h: Vec<f64> = (0..n * n).map(|k| if (k / n).abs_diff(k % n) <= 1 || k % 7 == 0 { 1.0 / (7.0 + (k / n + k % n) as f64) } else { 0.0 }).collect();
+            let mut uniq = names.clone();
+            uniq.sort();
+            uniq.dedup();
+            let names = if uniq.len() == n { names } else { (0..n).map(|i| format!("v{}", i)).collect() };
+            let d = Dual::try_new(1.0 / 7.0, names.clone(), g.clone()).unwrap();
+            all3_dual(&mut rep, &d);
+            let d2 = Dual2::try_new(-1.0 / 7.0, names.clone(), g.clone(), h).unwrap();
+            all3_dual2(&mut rep, &d2);
+            // curves with `size` nodes at orders 0, 1, 2 (node tags up to three digits), two interpolators
+            let vals: Vec<f64> = (0..n).map(|i| 1.0 / (1.0 + 0.013 * i as f64)).collect();
+            for (interp, order) in [(VerifInterp::LogLinear, 0u8), (VerifInterp::LogLinear, 1), (VerifInterp::Linear, 2), (VerifInterp::FlatForward, 1)] {
+                if n >= 2 {
+                    let c = simple_curve(&vals, interp, order, "big", Convention::Act365F, Modifier::ModF, CalType::Cal(Cal::new(vec![to_ndt(19100)], vec![5, 6])), Some(100.0));
+                    all3_curve(&mut rep, &c, n <= 40);
+                }
+            }
+            // splines with `size` coefficients
+            if n >= 5 {
+                let k = 4;
+                let mut t = vec![0.0; k];
+                t.extend((1..=(n - k)).map(|j| j as f64 / 3.0));
+                t.extend(vec![(n - k + 1) as f64 / 3.0; k]);
+                let cf: Vec<f64> = (0..n).map(|i| 1.0 / (3.0 + i as f64)).collect();
+                let s0 = PPSpline::<f64>::new(k, t.clone(), Some(cf.clone()));
+                all3_spline_f64(&mut rep, &s0);
+                let s1 = PPSpline::<Dual>::new(k, t.clone(), Some(cf.iter().enumerate().map(|(i, v)| Dual::try_new(*v, vec![format!("y{}", i), format!("y{}", (i + 1) % n)], vec![0.1 * (i + 1) as f64, 1.0 / 3.0]).unwrap()).collect()));
+                let w1 = hooks::ppspline_dual_wrap(s1.clone());
+                rep.judge("json", "PPSplineDual", json_rt(&w1).and_then(|(y, _)| same_spline(&s1, hooks::ppspline_dual_inner(&y), &dbits_named)));
+                rep.judge("bincode", "PPSplineDual", bin_rt(&w1).and_then(|y| same_spline(&s1, hooks::ppspline_dual_inner(&y), &dbits_named)));
+            }
+            // FX market: a chain of up to 14 currencies, first and second order, with an update in between
+            {
+                let m = n.min(14).max(2);
+                let ccy = |i: usize| format!("c{}{}", (b'a' + (i / 26) as u8) as char, (b'a' + (i % 26) as u8) as char);
+                for order in [1u8, 2] {
+                    let quotes: Vec<FXRate> = (0..m - 1).map(|i| FXRate::try_new(&ccy(i + 1), &ccy(i), Number::F64(0.5 + 1.0 / (3.0 + i as f64)), None).unwrap()).collect();
+                    if let Ok(mut fx) = FXRates::try_new(quotes, None) {
+                        if order == 2 {
+                            let _ = fx.set_ad_order(ADOrder::Two);
+                        }
+                        all3_fx(&mut rep, &fx);
+                    } else {
+                        rep.acc.violate("large/fx-market-does-not-build", idx, serde_json::to_value(case).unwrap(), json!("Ok"), json!("Err"));
+                    }
+                }
+            }
+            rep.acc.sample(|| serde_json::to_value(case).unwrap());
+        }
         Case::Spline { id } => {
             let k = 2 + (*id % 3) as usize;
             let with_c = (*id / 3) % 2 == 1;
@@ -783,6 +840,9 @@ pub fn cases(tier: Tier) -> Vec<Case> {
             out.push(Case::CalStruct { mask, hols });
         }
     }
+    for size in [5usize, 9, 16, 17, 33, 64, 65, 101, 130] {
+        out.push(Case::LargeStruct { size });
+    }
     for id in 0..192 {
         out.push(Case::UnionStruct { id, extra: 0 });
         if id % 8 == 3 {
@@ -859,7 +919,8 @@ pub fn run(ctx: &Ctx, replay_file: Option<String>) -> ! {
          1970-2200 behaviour compared); curves: 6 interpolators x 3 orders x 3 calendar kinds x 11 conventions x 5 \
          modifiers x index base on/off, and curves with a history of order switches; FX markets of 2-4 currencies x \
          float/Dual/Dual2 quotes x settlement x three base choices x four histories (fresh, order switch, update, \
-         update between order switches); splines of the three types with and without coefficients; typed CurveDF. \
+         update between order switches); splines of the three types with and without coefficients; typed CurveDF; large objects on a size menu (5 .. 130): numbers with that many names, curves with that many nodes at orders 0-2, \
+         cubic splines with that many coefficients (float and Dual), FX chains of up to 14 currencies. \
          Oracle: the type's own ==, bitwise identity of EVERY float field, identical names/order/kind, and an identical \
          answer to a query battery (rates of all pairs at all three orders, curve look-ups and index values on the C11 \
          dates, calendar predicates, spline values and derivatives). Non-trivial: doubles whose shortest decimal form \
